@@ -32,6 +32,8 @@ ASSUMPTIONS = [
     "only updates whose result is representable in x's dtype are generated (integer arrays: integer right-hand sides in the same unit; no true division)",
     "aliasing of Vector slices and of Vector-from-Array construction is not fixed by the statement and is not generated",
     "Array op= Vector is not generated (it cannot keep x an Array)",
+    "integer Arrays in a dimensionless unit that carries a scale (percent, cm/m) are not generated: the conversion factor is not an integer",
+    "a component of a mixed-precision Vector is judged at the accuracy of its own dtype",
 ]
 REAL_STUB = {"real": ["osyris.Array", "osyris.Vector", "osyris.Datagroup", "osyris.Dataset", "pint registry"], "stub": []}
 OPS = {"+": operator.iadd, "-": operator.isub, "*": operator.imul, "/": operator.itruediv}
